@@ -63,6 +63,73 @@ theorem messages_delivered_bounded (max fuel : Nat) (cs : Reader) :
     ∀ m ∈ (recvMsgs max fuel cs).1, m.length ≤ max :=
   Bifrost.Props.C08.session_bounded max fuel cs
 
+/-! ### The packet sessions the code actually builds
+
+`Gen.Limits.floodsubSessionLimit`, `solicitInitiateSessionLimit` and `solicitHandlerSessionLimit`
+are the size-limit ARGUMENTS of the three `stream_packet.NewSession` calls (floodsub
+`AddPeerStream`; solicit `initiateControlStream` and `HandleMountedStream`), extracted by the
+translator as written at the call site; `floodsubMaxMessageSize` / `solicitMaxMessageSize` are the
+package constants. The budgets are the documented limits of the two protocols: floodsub
+"constrains the message buffer allocation size" to 2,000,000 bytes; the solicit control stream
+carries at most 256 hashes of 32 bytes, with a factor 2 of head-room. Raising a constant, or
+passing anything larger at a call site, changes one of these proof obligations. -/
+
+/-- Documented per-message budget of the floodsub stream. -/
+def pubsubBudget : Nat := 2000000
+/-- Documented per-message budget of the solicit control stream. -/
+def solicitBudget : Nat := 256 * 32 * 2
+
+/-- Every receive buffer of a `RecvMsg` read loop is non-empty and within the session's limit —
+for any stream, any chunking, and whatever the decoder makes of each message. -/
+theorem read_loop_allocs_bounded (max fuel : Nat) (cs : Reader) (oks : List Bool) :
+    ∀ n ∈ recvAllocs max fuel cs oks, 0 < n ∧ n ≤ max :=
+  Bifrost.Packets.recvAllocs_bounded max fuel cs oks
+
+/-- Each session is built with the package's limit constant, unchanged. -/
+theorem sessions_use_the_package_limit :
+    Bifrost.Gen.Limits.floodsubSessionLimit = Bifrost.Gen.Limits.floodsubMaxMessageSize ∧
+    Bifrost.Gen.Limits.solicitInitiateSessionLimit = Bifrost.Gen.Limits.solicitMaxMessageSize ∧
+    Bifrost.Gen.Limits.solicitHandlerSessionLimit = Bifrost.Gen.Limits.solicitMaxMessageSize := by
+  decide
+
+/-- The limits fit the 32-bit parameter of `NewSession` and the 32-bit length prefix (a larger
+constant would wrap in the conversion, or could never be exceeded by a prefix). -/
+theorem session_limits_fit_uint32 :
+    Bifrost.Gen.Limits.floodsubSessionLimit < 2 ^ 32 ∧
+    Bifrost.Gen.Limits.solicitInitiateSessionLimit < 2 ^ 32 ∧
+    Bifrost.Gen.Limits.solicitHandlerSessionLimit < 2 ^ 32 := by
+  decide
+
+/-- floodsub (`AddPeerStream` → `readPump`): no message of a remote peer makes the read loop
+allocate more than the floodsub budget, whatever bytes the peer sends. -/
+theorem floodsub_read_loop_alloc_bounded (fuel : Nat) (cs : Reader) (oks : List Bool) :
+    ∀ n ∈ recvAllocs Bifrost.Gen.Limits.floodsubSessionLimit fuel cs oks, n ≤ pubsubBudget := by
+  intro n hn
+  have h := (read_loop_allocs_bounded _ fuel cs oks n hn).2
+  have hb : Bifrost.Gen.Limits.floodsubSessionLimit ≤ pubsubBudget := by decide
+  exact Nat.le_trans h hb
+
+/-- solicit control stream, outgoing (`initiateControlStream`) and incoming
+(`HandleMountedStream`): never more than the solicit budget per message. -/
+theorem solicit_control_alloc_bounded (fuel : Nat) (cs : Reader) (oks : List Bool) :
+    (∀ n ∈ recvAllocs Bifrost.Gen.Limits.solicitInitiateSessionLimit fuel cs oks, n ≤ solicitBudget) ∧
+    (∀ n ∈ recvAllocs Bifrost.Gen.Limits.solicitHandlerSessionLimit fuel cs oks, n ≤ solicitBudget) := by
+  have hi : Bifrost.Gen.Limits.solicitInitiateSessionLimit ≤ solicitBudget := by decide
+  have hh : Bifrost.Gen.Limits.solicitHandlerSessionLimit ≤ solicitBudget := by decide
+  exact ⟨fun n hn => Nat.le_trans (read_loop_allocs_bounded _ fuel cs oks n hn).2 hi,
+         fun n hn => Nat.le_trans (read_loop_allocs_bounded _ fuel cs oks n hn).2 hh⟩
+
+/-- The largest buffer either loop can be made to allocate is the limit itself, and it takes a
+prefix within the limit to get it: one byte more is refused before anything is allocated
+(non-vacuity of the bounds at the boundary, evaluated at the generated limits). -/
+example :
+    recvAllocs Bifrost.Gen.Limits.solicitHandlerSessionLimit 10 [le32 16384] [] = [16384] ∧
+    recvAllocs Bifrost.Gen.Limits.solicitHandlerSessionLimit 10 [le32 16385] [] = [] ∧
+    recvAllocs Bifrost.Gen.Limits.floodsubSessionLimit 10 [le32 2000000, [1]] [] = [2000000] ∧
+    recvAllocs Bifrost.Gen.Limits.floodsubSessionLimit 10 [le32 2000001, [1]] [] = [] ∧
+    recvAllocs 10 100 [[2, 0, 0, 0, 7, 8, 0, 0, 0, 0, 3, 0, 0, 0, 1, 2, 3, 5, 0, 0, 0]] [true, false] = [2, 3] := by
+  decide
+
 example : readHeaderAlloc 100000 [[0xff, 0xff, 0xff, 0x7f, 1, 2, 3]] = 4 := by decide
 
 end Bifrost.Props.C40
